@@ -12,7 +12,7 @@ RULE = ("Hypothesis draws a corpus (1-8 documents of 0-8 tokens over an alphabet
         "options ngram_range 1<=a<=b<=4, stop_words None|'english'|list, lowercase, binary, min_df/max_df (ints and floats), "
         "max_features, and for tf-idf use_idf/smooth_idf/sublinear_tf/norm; default tokenizer only. Oracle: differential against "
         "CountVectorizer/TfidfVectorizer built with the same arguments (same exception type, or equal matrices for fit_transform and "
-        "transform, and vocabulary_ equal after joining tuples with a space). Non-trivial: b>=2, or stop words set, or a df/"
+        "transform, and vocabulary_ equal after joining tuples with a space); in a third of the cases both objects are then given a second configuration with set_params (all options, or only ngram_range) and the whole comparison is repeated on the refitted instances. Non-trivial: b>=2, or stop words set, or a df/"
         "max_features filter that actually removes a term. Distinct = distinct case JSON.")
 ASSUMPTIONS = ["default tokenizer / analyzer='word' only, as the statement says",
                "get_feature_names_out is only compared when it returns (tuple keys make numpy build odd-shaped arrays)"]
@@ -29,18 +29,8 @@ def _kwargs(o):
     return kw
 
 
-def check(case):
-    o = case["options"]
-    kw = _kwargs(o)
-    if o["kind"] == "tfidf":
-        ref, tra = TfidfVectorizer(**kw), _mod.TraceableTfidfVectorizer(**kw)
-        tol = 1e-12
-    else:
-        ref, tra = CountVectorizer(**kw), _mod.TraceableCountVectorizer(**kw)
-        tol = 0.0
-    corpus, other = list(case["corpus"]), list(case["other"])
-    facts = dict(kind=o["kind"], stop_words=("list" if isinstance(o["stop_words"], list) else o["stop_words"]),
-                 ngram_max=o["ngram_range"][1], ngram_min=o["ngram_range"][0])
+def _fit_compare(ref, tra, o, corpus, other, facts, tol, stage=""):
+    """fits both on the corpus and compares everything; returns None when both refuse, else (names_label, removed)"""
     ref_exc = tra_exc = None
     try:
         mref = ref.fit_transform(corpus)
@@ -51,15 +41,15 @@ def check(case):
     except ValueError as e:
         tra_exc = e
     if ref_exc is not None or tra_exc is not None:
-        require(ref_exc is not None and tra_exc is not None and type(ref_exc) is type(tra_exc), "refusal-differs",
+        require(ref_exc is not None and tra_exc is not None and type(ref_exc) is type(tra_exc), "refusal-differs" + stage,
                 "scikit-learn: %r, traceable: %r" % (ref_exc, tra_exc), facts)
-        return Outcome(["both-refuse", o["kind"]], False)
+        return None
 
     def same(a, b, what):
-        require(a.shape == b.shape, "matrix:shape:" + what, "%r vs %r" % (a.shape, b.shape), facts)
+        require(a.shape == b.shape, "matrix:shape:" + what + stage, "%r vs %r" % (a.shape, b.shape), facts)
         d = abs(a - b)
         mx = d.max() if d.nnz else 0.0
-        require(mx <= tol, "matrix:values:" + what, "max abs difference %r\nsklearn=%r\ntraceable=%r" % (
+        require(mx <= tol, "matrix:values:" + what + stage, "max abs difference %r\nsklearn=%r\ntraceable=%r" % (
             mx, a.toarray().tolist(), b.toarray().tolist()), facts)
 
     # vocabulary: tuples of tokens, joined = scikit-learn's key, same column
@@ -67,11 +57,11 @@ def check(case):
     a, b = o["ngram_range"]
     joined = {}
     for k, v in voc.items():
-        require(isinstance(k, tuple) and all(isinstance(t, str) for t in k), "vocabulary:key-not-token-tuple", "key %r" % (k,), facts)
-        require(a <= len(k) <= b, "vocabulary:key-length", "key %r for ngram_range %r" % (k, (a, b)), facts)
+        require(isinstance(k, tuple) and all(isinstance(t, str) for t in k), "vocabulary:key-not-token-tuple" + stage, "key %r" % (k,), facts)
+        require(a <= len(k) <= b, "vocabulary:key-length" + stage, "key %r for ngram_range %r" % (k, (a, b)), facts)
         joined[" ".join(k)] = int(v)
-    require(len(joined) == len(voc), "vocabulary:collision", "", facts)
-    require(joined == {k: int(v) for k, v in ref.vocabulary_.items()}, "vocabulary:differs",
+    require(len(joined) == len(voc), "vocabulary:collision" + stage, "", facts)
+    require(joined == {k: int(v) for k, v in ref.vocabulary_.items()}, "vocabulary:differs" + stage,
             "traceable (joined) %r\nscikit-learn %r" % (sorted(joined.items()), sorted(ref.vocabulary_.items())), facts)
     same(mref, mtra, "fit_transform")
     same(ref.transform(other), tra.transform(other), "transform")
@@ -90,17 +80,53 @@ def check(case):
             else:
                 got.append(tuple(np.asarray(nm, dtype=object).ravel().tolist()))
         expected = [k for k, _ in sorted(voc.items(), key=lambda kv: kv[1])]
-        require(got == expected, "feature-names:order", "%r vs vocabulary order %r" % (got[:6], expected[:6]), facts)
+        require(got == expected, "feature-names:order" + stage, "%r vs vocabulary order %r" % (got[:6], expected[:6]), facts)
     # did a filter remove something?
     full = CountVectorizer(ngram_range=(a, b), lowercase=o["lowercase"])
     try:
         nfull = len(full.fit(corpus).vocabulary_)
     except ValueError:
         nfull = 0
-    removed = nfull > len(voc)
-    labels = [o["kind"], "ngram_max=%d" % b, "ngram_min=%d" % a, "stop=" + str(facts["stop_words"]), names_label,
-              "filter-removed" if removed else "nothing-removed", "binary" if o["binary"] else "counts",
-              "has-empty-doc" if any(not d.strip() for d in corpus) else "no-empty-doc"]
+    return names_label, nfull > len(voc)
+
+
+def check(case):
+    o = case["options"]
+    kw = _kwargs(o)
+    if o["kind"] == "tfidf":
+        ref, tra = TfidfVectorizer(**kw), _mod.TraceableTfidfVectorizer(**kw)
+        tol = 1e-12
+    else:
+        ref, tra = CountVectorizer(**kw), _mod.TraceableCountVectorizer(**kw)
+        tol = 0.0
+    corpus, other = list(case["corpus"]), list(case["other"])
+
+    def facts_of(o):
+        return dict(kind=o["kind"], stop_words=("list" if isinstance(o["stop_words"], list) else o["stop_words"]),
+                    ngram_max=o["ngram_range"][1], ngram_min=o["ngram_range"][0])
+    facts = facts_of(o)
+    first = _fit_compare(ref, tra, o, corpus, other, facts, tol)
+    a, b = o["ngram_range"]
+    labels = [o["kind"]]
+    if first is None:
+        labels.append("both-refuse")
+    else:
+        names_label, removed = first
+        labels += ["ngram_max=%d" % b, "ngram_min=%d" % a, "stop=" + str(facts["stop_words"]), names_label,
+                   "filter-removed" if removed else "nothing-removed", "binary" if o["binary"] else "counts",
+                   "has-empty-doc" if any(not d.strip() for d in corpus) else "no-empty-doc"]
+    # the SAME two objects reconfigured with set_params and fitted again (a grid search over ngram_range does this): "every
+    # configuration" includes the one an instance was given after it had already analysed the corpus with another one
+    o2 = case.get("options2")
+    if o2 is not None:
+        o2 = dict(o2, kind=o["kind"])
+        kw2 = _kwargs(o2)
+        ref.set_params(**kw2)
+        tra.set_params(**kw2)
+        second = _fit_compare(ref, tra, o2, corpus, other, dict(facts_of(o2), reconfigured=True), tol, stage=":after-set_params")
+        labels.append("reconfigured" + (":both-refuse" if second is None else (":ngram-range-changed" if o2["ngram_range"] != o["ngram_range"] else "")))
+    if first is None:
+        return Outcome(labels, False)
     return Outcome(labels, b >= 2 or o["stop_words"] is not None or removed)
 
 
@@ -116,18 +142,26 @@ def _cases(draw, tier="quick"):
     ndoc = draw(st.integers(1, 8))
     corpus = [doc() for _ in range(ndoc)]
     other = [doc() for _ in range(draw(st.integers(1, 4)))]
-    a = draw(st.integers(1, 4))
-    b = draw(st.integers(a, 4))
-    stop = draw(st.sampled_from([None, None, "english", "list"]))
-    if stop == "list":
-        stop = draw(st.lists(st.sampled_from(["the", "cat", "dog", "is", "bird", "document"]), min_size=1, max_size=3, unique=True))
-    mind = draw(st.sampled_from([1, 1, 1, 1, 1, 1, 2, 0.3]))
-    maxd = draw(st.sampled_from([1.0, 1.0, 1.0, 1.0, 1.0, 0.8, 3, 6]))
-    o = dict(kind=draw(st.sampled_from(["count", "tfidf"])), ngram_range=[a, b], stop_words=stop, lowercase=draw(st.booleans()),
-             binary=draw(st.booleans()), min_df=mind, max_df=maxd, max_features=draw(st.sampled_from([None, None, 1, 3, 6])),
-             use_idf=draw(st.booleans()), smooth_idf=draw(st.booleans()), sublinear_tf=draw(st.booleans()),
-             norm=draw(st.sampled_from(["l2", "l1", None])))
-    return dict(corpus=corpus, other=other, options=o)
+    def options():
+        a = draw(st.integers(1, 4))
+        b = draw(st.integers(a, 4))
+        stop = draw(st.sampled_from([None, None, "english", "list"]))
+        if stop == "list":
+            stop = draw(st.lists(st.sampled_from(["the", "cat", "dog", "is", "bird", "document"]), min_size=1, max_size=3, unique=True))
+        mind = draw(st.sampled_from([1, 1, 1, 1, 1, 1, 2, 0.3]))
+        maxd = draw(st.sampled_from([1.0, 1.0, 1.0, 1.0, 1.0, 0.8, 3, 6]))
+        return dict(kind=draw(st.sampled_from(["count", "tfidf"])), ngram_range=[a, b], stop_words=stop, lowercase=draw(st.booleans()),
+                    binary=draw(st.booleans()), min_df=mind, max_df=maxd, max_features=draw(st.sampled_from([None, None, 1, 3, 6])),
+                    use_idf=draw(st.booleans()), smooth_idf=draw(st.booleans()), sublinear_tf=draw(st.booleans()),
+                    norm=draw(st.sampled_from(["l2", "l1", None])))
+    o = options()
+    o2 = None
+    if draw(st.integers(0, 2)) == 0:
+        o2 = options()
+        if draw(st.booleans()):
+            # only the n-gram range changes
+            o2 = dict(o, ngram_range=o2["ngram_range"])
+    return dict(corpus=corpus, other=other, options=o, options2=o2)
 
 
 CLAUSES = [
